@@ -55,12 +55,12 @@ def cases(tier, rng):
           1.7976931348623157e308, 9007199254740993.0, 4.35, 0.285, 1.005, 2.675, 1e15, 1e16, 1e17, 123456.789e3, 3.141592653589793,
           2.718281828459045, 100.0, 0.5, 1.0, -0.1, -2.5, 8.41e21, 9.5367431640625e-07, 2.0**-1074, 2.0**-1022, 2.0**52, 2.0**53 + 2]
     for k in range(-30, 31): fl += [10.0 ** k, 2.0 ** k, 2.0 ** k * (1 + 2.0 ** -52), 2.0 ** k * (1 - 2.0 ** -53)]
-    nf = 1500 if tier == "quick" else 40000
+    nf = 500 if tier == "quick" else 40000
     for _ in range(nf):
         r = rng.random()
         if r < 0.35: fl.append(round(rng.uniform(-1000, 1000), rng.randint(0, 6)))
         elif r < 0.55: fl.append(rng.randint(1, 10**rng.randint(1, 17)) / 10.0 ** rng.randint(0, 20))
-        elif r < 0.75: fl.append(rng.uniform(0, 1) * 10.0 ** rng.randint(-300, 300))
+        elif r < 0.75: fl.append(rng.uniform(0, 1) * 10.0 ** (rng.randint(-300, 300) if rng.random() < 0.2 else rng.randint(-25, 25)))
         else:
             b = rng.getrandbits(64)
             if (b >> 52) & 0x7ff != 0x7ff: fl.append(struct.unpack("<d", struct.pack("<Q", b))[0])
